@@ -38,6 +38,20 @@ type fnNames struct {
 // canonName: values whose rendering name differs from their current identifier.
 var canonName = map[ssa.Value]string{}
 
+// recordedFns: the functions that existed (with a body worth recording) when the rows were written.
+var recordedFns map[string]bool
+
+// isNewFn: a repository function the record does not know — introduced after the rows were written,
+// typically a helper extracted from an anchored function. Tables and rows see through such functions
+// (their callers own what they do; their bodies are read in the caller's terms) instead of treating
+// them as strangers.
+func isNewFn(fn *ssa.Function) bool {
+	if fn == nil || fn.Blocks == nil || recordedFns == nil || len(recordedFns) == 0 || !fnInRepo(fn) || fn.Synthetic != "" {
+		return false
+	}
+	return !recordedFns[FnName(fn)]
+}
+
 func collectNames(fn *ssa.Function) (fnNames, map[string][]ssa.Value) {
 	var n fnNames
 	by := map[string][]ssa.Value{}
@@ -84,9 +98,6 @@ func freezeNames(a *Analysis, srcDir string) error {
 			continue
 		}
 		n, _ := collectNames(fn)
-		if len(n.Params)+len(n.FreeVars)+len(n.Locals)+len(n.Phis) == 0 {
-			continue
-		}
 		out[FnName(fn)] = n
 	}
 	keys := make([]string, 0, len(out))
@@ -118,6 +129,10 @@ func applyNames(a *Analysis) int {
 	var rec map[string]fnNames
 	if len(namesJSON) == 0 || json.Unmarshal(namesJSON, &rec) != nil {
 		return 0
+	}
+	recordedFns = map[string]bool{}
+	for k := range rec {
+		recordedFns[k] = true
 	}
 	diffList := func(cur, old []string) map[string]string {
 		inOld, inCur := map[string]bool{}, map[string]bool{}
